@@ -23,12 +23,18 @@ EXTENDS SyncForest, TLC, Json
 
 RespBlocks(es) == {es[i].b : i \in 1..Len(es)}
 
+(* rl (generator and recorded traces only; absent = 0): 1 = the header sent is a copy RELINKED to the hash stated for the  *)
+(* previous entry; 2 = the header sent is a copy whose parent hash is ALL ZEROS (its stated hash is its own): it links to  *)
+(* nothing, is the header of no block of the forest, and its parent can never be known                                     *)
+Rl(e) == IF "rl" \in DOMAIN e THEN e.rl ELSE 0
+Genuine(es) == {es[i].b : i \in {j \in 1..Len(es) : Rl(es[j]) # 2}}
+
 (* "a block's stated hash differs from the hash of its header" *)
 HashesOK(es) == \A i \in 1..Len(es) : es[i].st = es[i].b
 
 (* "a hash-linked chain": every header's parent hash is the hash of the    *)
 (* previous header (which also makes the numbers consecutive)              *)
-Linked(par, es) == \A i \in 1..(Len(es) - 1) : es[i + 1].b # 0 /\ par[es[i + 1].b] = es[i].b
+Linked(par, es) == \A i \in 1..(Len(es) - 1) : es[i + 1].b # 0 /\ par[es[i + 1].b] = es[i].b /\ Rl(es[i + 1]) # 2 /\ Rl(es[i]) # 2
 
 ValidResp(par, es) == HashesOK(es) /\ Linked(par, es)
 
@@ -39,7 +45,7 @@ RespDefect(par, es) ==
   ELSE "none"
 
 (* blocks a batch of responses offers for import *)
-Offers(par, batch) == UNION {RespBlocks(batch[i].es) : i \in {j \in 1..Len(batch) : ValidResp(par, batch[j].es)}}
+Offers(par, batch) == UNION {Genuine(batch[i].es) : i \in {j \in 1..Len(batch) : ValidResp(par, batch[j].es)}}
 
 (* monitor state: known = genesis and the imported blocks, offered = blocks *)
 (* delivered so far in responses that must not be rejected, imported        *)
